@@ -537,7 +537,14 @@ impl StringGenerator {
                     // rle is always >= x + 1 but "x - 1" may overflow.
                     rle -= 1;
                     rle -= x;
-                    if self.options.use_cursor_forward && line[x].ch == ' ' && line[x].cur_state.bg_idx == 0 && !line[x].cur_state.is_blink {
+                    // a row never ends with a cursor movement: at the right margin the cursor would not wrap,
+                    // and a last row made of cursor movements only would not exist after loading
+                    if self.options.use_cursor_forward
+                        && line[x].ch == ' '
+                        && line[x].cur_state.bg_idx == 0
+                        && !line[x].cur_state.is_blink
+                        && x + rle + 1 < len
+                    {
                         let fmt = &format!("\x1B[{}C", rle + 1);
                         let output = fmt.as_bytes();
                         if output.len() <= rle {
